@@ -112,7 +112,7 @@ func c13Run(rc *core.RunCtx) {
 	rc.Note("index_alphabet", itoa(len(c.ix)))
 	steps := []func(){
 		c.partItemGet, c.partLenIter, c.partItemSetDel, c.partConcat, c.partRepeat, c.partContains,
-		c.partCompare, c.partRangeNew, c.partSliceNew, c.partSliceGet, c.partSliceDel, c.partSliceSetExtra, c.partSliceSet,
+		c.partCompare, c.partRangeNew, c.partSliceNew, c.partSliceGet, c.partSliceDel, c.partSliceSetExtra, c.partSliceSet, c.partShared,
 	}
 	for _, s := range steps {
 		if rc.Expired() || rc.Done() {
@@ -1482,7 +1482,7 @@ func init() {
 		Level: "model_checking",
 		Rule: "sequence variants {str ASCII, str with 1-4 byte code points (two layouts), list, tuple, bytes, range with steps -2,-1,1,2,3 in exact and ragged-stop form} x every length 0..4 (quick) / 0..6 (thorough) x every (start, stop, step) in ({None} U {-9..9} U FAR)^3, FAR = {+-(2^63-1), +-2^63, +-2^64} (thorough) / {2^63-1, 2^63, -2^63, -2^64} (quick), for slice get (all variants; thorough also with every bound held in a *py.BigInt) and for list slice deletion and list slice assignment (replacement lists of length 0..3; over a reduced index set also tuple/range/iterator/generator/bytes/the list itself/non-iterables); " +
 			"every index of that set plus True/False/None/1.0/'0'/(0,) for item get/set/del; slice() objects (1-3 arguments) with attribute read-back; concatenation (+, +=) over all length pairs and all kind pairs; repetition (*, reflected *, *=) by {-1,0,1,2,3,True,False,+-(2^63-1),+-2^63,+-2^64, non-integers}; len, bool, five iteration forms; membership (in, not in) with member/non-member/substring/wrong-type probes; ==, !=, <, <=, >, >= over all pairs of all words of length 0..3 over a 2-letter alphabet per kind (ranges: 60 parameter triples) and across kinds; range(start, stop, step) for all small triples. " +
-			"Every case runs through the Go API (py.GetItem/SetItem/DelItem/Add/IAdd/Mul/IMul/Eq../Len/Iter/SequenceContains) and as a compiled Python program, and is compared with a from-first-principles model (Python's slice.indices definition in arbitrary precision, selection by explicit loop); results are compared by type and elements, exceptions by type; after each operation the operands are re-read (and list results are mutated first) to detect corruption and aliasing. Every case is non-trivial; distinct by input text.",
+			"Every case runs through the Go API (py.GetItem/SetItem/DelItem/Add/IAdd/Mul/IMul/Eq../Len/Iter/SequenceContains) and as a compiled Python program, and is compared with a from-first-principles model (Python's slice.indices definition in arbitrary precision, selection by explicit loop); results are compared by type and elements, exceptions by type; after each operation the operands are re-read (and list results are mutated first) to detect corruption and aliasing. Part shared: tuples and bytes whose storage has spare capacity or is a window on a longer sequence (tuple(iterator), tuple(list), slices of longer tuples / bytes, Go slices with spare capacity) x length 0..3 (thorough 5) x every ordered pair of {+=, *=, +, *, += empty} applied one after the other to the same base: base and both derived values are what the model says. Every case is non-trivial; distinct by input text.",
 		Run: c13Run,
 		Assumptions: []string{
 			"Python 3.4 semantics as modelled (cross-checked against CPython 3.11 where the two agree)",
